@@ -140,7 +140,21 @@ def playback_for(pb, check_desc):
     return None
 
 
-def run_harness(unit_rs, harness, workdir, default_timeout=600, rss_cap=14 << 30, playback=True):
+def run_harness(unit_rs, harness, workdir, default_timeout=600, rss_cap=14 << 30, playback=None):
+    """Two-phase: the deciding run is made WITHOUT concrete playback (measured: `-Z concrete-playback`
+    makes CBMC extract a trace per property and slowed quick_sort_2_len4_at2_code13 from 17 s to 161 s of
+    solver time); only a harness that FAILS is run a second time with playback switched on, to obtain the
+    counterexample values.  If that second run does not finish, the failure stands without a witness."""
+    if playback is None:
+        res, out = run_harness(unit_rs, harness, workdir, default_timeout, rss_cap, playback=False)
+        if res.get("outcome") == "fail" and harness.get("expect") != "fail":
+            res2, out2 = run_harness(unit_rs, harness, workdir, default_timeout, rss_cap, playback=True)
+            if res2.get("outcome") == "fail" and res2.get("playback"):
+                res["playback"] = res2["playback"]
+                res["playback_run_wall_s"] = res2["wall_s"]
+            else:
+                res["playback_run"] = "no witness: second run outcome=%s %s" % (res2.get("outcome"), res2.get("reason", ""))
+        return res, out
     name = harness["name"]
     tdir = os.path.join(workdir, "t_" + name)
     cmd = ["kani", os.path.basename(unit_rs), "--harness", name, "--exact" if False else "--harness", name,
